@@ -148,3 +148,32 @@ Definition tests_optimize_inline_through_module2_on : cexpr :=
  (Rec [39%N; 40%N; 41%N; 42%N; 67%N] (ECons (Ident 55%N) (ECons (Ident 58%N) (ECons (Ident 61%N) (ECons (Ident 64%N) (ECons (Ident 38%N) ENil))))))))))).
 Example accepts_tests_optimize_inline_through_module2 : valid_opt tests_optimize_inline_through_module2_off tests_optimize_inline_through_module2_on = true.
 Proof. vm_compute. reflexivity. Qed.
+
+(* ---- recursive values: `rec let r = { f = \x -> s.n, n = <n> }  let s = { n = 7 } in ..` ---- *)
+(* names: 60 = r, 61 = s, 62 = field f, 63 = field n, 64 = x, 65/66 = pattern binders *)
+Definition rec_values (n_of_r : cexpr) (body : cexpr) : cexpr :=
+  LetRec (CCons 60%N [] (Rec [62; 63]%N
+                           (ECons (LetRec (CCons 70%N [64%N] (proj 61%N 63%N 65%N) CNil) (Ident 70%N))
+                           (ECons n_of_r ENil)))
+         (CCons 61%N [] (Rec [63%N] (ECons (Const (LInt 7)) ENil)) CNil))
+         body.
+
+(* the members close over each other: r.f reads s.n although s is made after r *)
+Example recursive_values_evaluate :
+  eval_core fop0 fcmp0 3 [] (rec_values (Const (LInt 1)) (Call (proj 60%N 62%N 66%N) (ECons (Const (LInt 0)) ENil)))
+  = (Val (VInt 7), []).
+Proof. vm_compute. reflexivity. Qed.
+
+(* an unused group of pure recursive values may go (R2) ... *)
+Example accepts_dropped_pure_recursive_values :
+  valid_opt (rec_values (Const (LInt 1)) (Const (LInt 0))) (Const (LInt 0)) = true.
+Proof. vm_compute. reflexivity. Qed.
+
+(* ... but not when making a member calls something: the call happens when the group is made *)
+Definition env_eff4 : env := [(4%N, VHost HEff)].
+Example rejects_dropped_effectful_recursive_value :
+  valid_opt (rec_values (Call (Ident 4%N) (ECons (Const (LInt 5)) ENil)) (Const (LInt 0))) (Const (LInt 0)) = false
+  /\ eval_core fop0 fcmp0 2 env_eff4 (rec_values (Call (Ident 4%N) (ECons (Const (LInt 5)) ENil)) (Const (LInt 0)))
+     = (Val (VInt 0), [5%Z])
+  /\ eval_core fop0 fcmp0 2 env_eff4 (Const (LInt 0)) = (Val (VInt 0), []).
+Proof. repeat split; vm_compute; reflexivity. Qed.
